@@ -12,6 +12,9 @@ backoffs cost milliseconds).  Parameter values are swarm configuration.
 (b) direct calls with attempt up to 10^6 and previous delay up to 1e308
 (c) adaptive(): interleaved record_success / record_failure / clock advances
     around window_s / calls, on the simulated clock
+(d) one adaptive() object used by 2-3 real threads under the seeded baton
+    scheduler (pre-emption before every source line of strategies.py and at its
+    lock): no call raises, every value stays inside the multiplier envelope
 
 R1 no exception escapes a strategy
 R2 decorrelated_jitter: finite, 0 <= x <= max_s
@@ -112,7 +115,7 @@ def gen(seed, tier="quick"):
         scn["kind"] = "adaptive_hist"
         w = r.choice([1, 2, 8, 60]) * 1_000_000
         scn["adaptive"] = {"window_us": w, "target_success": r.choice([1.0, 0.9, 0.5, 0.1, 0.01]), "min_m": r.choice([1.0, 1.0, 1.5, 2.0]),
-                           "span": r.choice([0.0, 1.0, 4.0, 9.0])}
+                           "span": r.choice([0.0, 1.0, 4.0, 9.0, 9.0, 9.0, 1e308, "inf", "nan"])}
         ops = []
         n_ops = r.choice([r.randint(1, 60), r.randint(1, 60), r.randint(1, 60), r.randint(1100, 3000)])
         burst = n_ops > 1000     # a traffic burst: thousands of outcomes inside one window
@@ -136,6 +139,15 @@ def gen(seed, tier="quick"):
             scn["calls"] = [{"fails": r.randint(0, 8), "gap_us": r.choice([0, 1000, w, w - 1, w + 1, w // 2]), "dur_us": r.choice([0, 1000, w // 4])}
                             for _ in range(r.randint(1, 8))]
             scn["fallback_us"] = r.choice([0, 1, 250_000, 1_000_000])
+        elif r.random() < 0.3:
+            # one adaptive() object shared by 2-3 worker threads (it carries its own lock): seeded baton schedule,
+            # pre-emption before every source line of strategies.py and at every lock operation
+            r2 = random.Random(seed ^ 0xC18)
+            scn["kind"] = "adaptive_threads"
+            scn["ops"] = ops[:r2.randint(0, 6)] if not burst else ops[:r2.randint(0, 40)]
+            pool = [["fail"], ["fail"], ["ok"], ["call", 250_000], ["call", 1_000_000], ["call", 0]]
+            scn["threads"] = [[list(r2.choice(pool)) for _ in range(r2.choice([1, 2, 3, 4]))] for _ in range(r2.choice([2, 2, 3]))]
+            scn["sched"] = r2.choice(["random", "random", "pct", "rtc"])
         return scn
     if name == "retry_after_or":
         scn["jitter_s"] = r.choice([0.0, 0.25, 1.0, 2.0, -1.0])
@@ -324,9 +336,13 @@ def run_adaptive(scn, out):
             v = realf(ctx)
             inner_vals.append(v)
             return v
-    mn, mx = a["min_m"], a["min_m"] + a["span"]
-    ad = S.adaptive(fallback, window_s=a["window_us"] / 1e6, target_success=a["target_success"], min_multiplier=mn, max_multiplier=mx,
-                    clock=clock.monotonic)
+    mn, mx = a["min_m"], a["min_m"] + float(a["span"])
+    try:
+        ad = S.adaptive(fallback, window_s=a["window_us"] / 1e6, target_success=a["target_success"], min_multiplier=mn, max_multiplier=mx,
+                        clock=clock.monotonic)
+    except ValueError:
+        seams.bind(clock, None)
+        return [], clock, draws      # the constructor's own validation rejected the parameterisation: not a valid one
     records = []
     att = 0
     for op in scn["ops"]:
@@ -362,20 +378,103 @@ def run_adaptive(scn, out):
     return records, clock, draws
 
 
+def run_adaptive_threads(scn, out):
+    """(d) a single adaptive() strategy object used from several threads at once."""
+    from ..threads import FAKE, Deadlock, Scheduler, StepCap
+    from .c17 import make_chooser
+
+    seams.install_threading(FAKE)
+    FAKE.locks = []
+    FAKE.sched = None
+    clock = SimClock(0)
+    draws = Draws(scn["draws"], scn["seed"])
+    seams.bind(clock, draws)
+    a = scn["adaptive"]
+    mn, mx = a["min_m"], a["min_m"] + float(a["span"])
+    tl = {}
+
+    def fallback(ctx):
+        return tl[ctx.attempt]
+
+    try:
+        ad = S.adaptive(fallback, window_s=a["window_us"] / 1e6, target_success=a["target_success"], min_multiplier=mn, max_multiplier=mx,
+                        clock=clock.monotonic)
+    except ValueError:
+        seams.bind(clock, None)
+        return [], clock, draws      # the constructor's own validation rejected the parameterisation: not a valid one
+    # the dataclass captured the real threading.Lock as its default factory at import time: hand the instance a
+    # cooperative lock instead (the lock object is the seam; everything that uses it is the real code)
+    if hasattr(ad, "_lock"):
+        ad._lock = FAKE.Lock()
+    for op in scn["ops"]:
+        if op[0] == "adv":
+            clock.advance(op[1])
+        elif op[0] == "fail":
+            ad.record_failure(ErrorClass.TRANSIENT)
+        elif op[0] == "ok":
+            ad.record_success()
+    records = []
+
+    def worker(tid, ops):
+        def run():
+            for i, op in enumerate(ops):
+                try:
+                    if op[0] == "fail":
+                        ad.record_failure(ErrorClass.TRANSIENT)
+                    elif op[0] == "ok":
+                        ad.record_success()
+                    else:
+                        att = 1 + tid * 10 + i
+                        fb = op[1] / 1e6
+                        tl[att] = fb
+                        ctx = S.BackoffContext(attempt=att, classification=Classification(klass=ErrorClass.TRANSIENT), prev_sleep_s=None,
+                                               remaining_s=None, cause="exception")
+                        x = ad(ctx)
+                        records.append({"attempt": att, "fallback": fb, "value": x})
+                        if not isinstance(x, (int, float)) or x != x or x < mn * fb * (1 - 1e-9) or x > mx * fb * (1 + 1e-9):
+                            out.append(V("R4", "adaptive scaled its fallback by a factor outside [min_multiplier, max_multiplier]",
+                                         {"adaptive": a, "fallback": fb, "value": x, "min": mn, "max": mx, "threads": True}))
+                except Exception as exc:  # noqa: BLE001 - "none of them raises"
+                    out.append(V("R1", f"adaptive raised {type(exc).__name__}", {"adaptive": a, "op": op, "threads": scn["threads"]}))
+        return run
+
+    sched = Scheduler(make_chooser({"seed": scn["seed"], "threads": scn["threads"], "strategy": scn.get("sched", "random"), "schedule": scn.get("schedule")}),
+                      files=("redress/strategies.py",), step_cap=20000)
+    FAKE.sched = sched
+    try:
+        sched.run([worker(t, ops) for t, ops in enumerate(scn["threads"])])
+    except Deadlock:
+        out.append(V("R1", "adaptive deadlocked under a legal interleaving", {"adaptive": a, "threads": scn["threads"]}))
+    except StepCap:
+        out.append(V("R1", "adaptive did not finish under a legal interleaving (step cap)", {"adaptive": a, "threads": scn["threads"]}))
+    finally:
+        FAKE.sched = None
+        for lk in FAKE.locks:
+            lk.owner = None
+    seams.bind(clock, None)
+    draws.preempt = sched.switches
+    draws.schedule = list(sched.schedule)
+    return records, clock, draws
+
+
 def run_adaptive_policy(scn, out):
     clock = SimClock(0)
     draws = Draws(scn["draws"], scn["seed"])
     seams.bind(clock, draws)
     a = scn["adaptive"]
-    mn, mx = a["min_m"], a["min_m"] + a["span"]
+    mn, mx = a["min_m"], a["min_m"] + float(a["span"])
     fbv = scn["fallback_us"] / 1e6
     fb_calls = []
 
     def fallback(ctx):
         fb_calls.append(fbv)
         return fbv
-    ad = S.adaptive(fallback, window_s=a["window_us"] / 1e6, target_success=a["target_success"], min_multiplier=mn, max_multiplier=mx,
-                    clock=clock.monotonic)
+    try:
+        ad = S.adaptive(fallback, window_s=a["window_us"] / 1e6, target_success=a["target_success"], min_multiplier=mn, max_multiplier=mx,
+                        clock=clock.monotonic)
+    except ValueError:
+        seams.bind(clock, None)
+        return [], clock, draws      # the constructor's own validation rejected the parameterisation: not a valid one
     records = []
 
     def recorder(ctx):
@@ -457,6 +556,9 @@ def execute(scn):
     elif scn["kind"] == "adaptive_hist":
         records, clock, draws = run_adaptive(scn, viol)
         escaped = None
+    elif scn["kind"] == "adaptive_threads":
+        records, clock, draws = run_adaptive_threads(scn, viol)
+        escaped = None
     elif scn["kind"] == "strat_worker":
         records, escaped, clock, draws = run_worker(scn)
         judge(scn, records, viol)
@@ -473,10 +575,14 @@ def execute(scn):
     nt = max_att > 8 or draws.extreme > 0
     res = {"violations": list(seen.values()),
            "shape": (scn["kind"], scn["strategy"], scn["base_s"], scn["max_s"], scn["draws"], bucket, scn.get("max_attempts"), digest(scn.get("calls") or scn.get("ops") or 0)),
-           "nontrivial": nt, "faults": {"rand_extreme": draws.extreme, "clock_advance": sum(1 for o in scn.get("ops", []) if o[0] == "adv" and o[1])},
+           "nontrivial": nt or getattr(draws, "preempt", 0) > 0,
+           "faults": {"thread_preempt": getattr(draws, "preempt", 0), "rand_extreme": draws.extreme, "clock_advance": sum(1 for o in scn.get("ops", []) if o[0] == "adv" and o[1])},
            "probes": {"strategy_evaluations": len(records), "attempt_ge_1024": sum(1 for r in records if r.get("attempt", 0) >= 1024),
                       "attempt_ge_1751": sum(1 for r in records if r.get("attempt", 0) >= 1751)},
            "sim_us": clock.mono_us, "digest": digest(records[-50:]) + str(len(records)), "runs": 1}
+    if getattr(draws, "schedule", None) is not None:
+        res["schedule"] = draws.schedule
+        res["digest"] += digest(draws.schedule)
     if nt:
         res["sample"] = {"scenario": scn, "evaluations": len(records), "last_records": records[-5:]}
     return res
